@@ -8,6 +8,7 @@ package vc
 import (
 	"fmt"
 	"go/types"
+	"regexp"
 	"sort"
 	"strconv"
 	"strings"
@@ -447,7 +448,22 @@ func (e *Engine) GenReplayTest(c *Contract, ri *ReplayInfo, kind, oblName string
 	}
 	b.WriteString("\tfmt.Println(\"VERIF-REPLAY: OK\")\n}\n")
 	b.WriteString(ReplayHelpers)
-	return b.String(), true, note
+	// import the packages whose qualifiers the generated literals use
+	out := b.String()
+	var extra []string
+	for _, ip := range pkg.Imports() {
+		if ip.Name() == "fmt" || ip.Name() == "reflect" || ip.Name() == "testing" {
+			continue
+		}
+		if regexp.MustCompile(`[^A-Za-z0-9_.]` + regexp.QuoteMeta(ip.Name()) + `\.[A-Za-z_]`).MatchString(out) {
+			extra = append(extra, fmt.Sprintf("\t%q\n", ip.Path()))
+		}
+	}
+	if len(extra) > 0 {
+		sort.Strings(extra)
+		out = strings.Replace(out, "import (\n", "import (\n"+strings.Join(extra, ""), 1)
+	}
+	return out, true, note
 }
 
 func sortedKeysS(m map[string]*sexpr) []string {
